@@ -154,6 +154,63 @@ theorem curPathText_facts (root path : Str) (hroot : root = [] ∨ root.head? = 
     have := wfk_nil_quoteBytes_all cur_no_pct.2 [] (utf8Enc (lstripSlash path))
     simpa [wfk] using this
 
+/-! ### get_host -/
+
+theorem endsWith_split {s suf : Str} (h : endsWith s suf = true) :
+    s = s.take (s.length - suf.length) ++ suf := by
+  unfold endsWith at h
+  obtain ⟨t, ht⟩ := List.isPrefixOf_iff_prefix.mp h
+  have hs : s = t.reverse ++ suf := by
+    have := congrArg List.reverse ht
+    simpa using this.symm
+  have hl : s.length - suf.length = t.reverse.length := by rw [hs]; simp
+  rw [hl]
+  conv => lhs; rw [hs]
+  rw [hs, List.take_left']
+  simp
+
+theorem endsWith_append (h suf : Str) : endsWith (h ++ suf) suf = true := by
+  unfold endsWith
+  simp [List.isPrefixOf_iff_prefix]
+
+/-- `get_host` removes exactly the suffix `:80` (http, ws) resp. `:443` (https, wss) and nothing
+else: the result is the host text with that suffix cut off, or the host text itself. -/
+theorem getHost_spec (scheme host : Str) :
+    (∃ suf, host = getHost scheme host ++ suf ∧
+      (suf = [] ∨ ((scheme = "http".toList ∨ scheme = "ws".toList) ∧ suf = ":80".toList) ∨
+        ((scheme = "https".toList ∨ scheme = "wss".toList) ∧ suf = ":443".toList))) ∧
+    (∀ h, (scheme = "http".toList ∨ scheme = "ws".toList) → getHost scheme (h ++ ":80".toList) = h) ∧
+    (∀ h, (scheme = "https".toList ∨ scheme = "wss".toList) → getHost scheme (h ++ ":443".toList) = h) := by
+  refine ⟨?_, ?_, ?_⟩
+  · unfold getHost
+    split
+    · rename_i hc
+      simp only [Bool.and_eq_true, Bool.or_eq_true, beq_iff_eq] at hc
+      exact ⟨":80".toList, by have := endsWith_split hc.2; simpa using this, Or.inr (Or.inl ⟨hc.1, rfl⟩)⟩
+    · split
+      · rename_i hc
+        simp only [Bool.and_eq_true, Bool.or_eq_true, beq_iff_eq] at hc
+        exact ⟨":443".toList, by have := endsWith_split hc.2; simpa using this, Or.inr (Or.inr ⟨hc.1, rfl⟩)⟩
+      · exact ⟨[], by simp, Or.inl rfl⟩
+  · intro h hs
+    unfold getHost
+    have hc : ((scheme == "http".toList || scheme == "ws".toList) && endsWith (h ++ ":80".toList) ":80".toList) = true := by
+      simp only [Bool.and_eq_true, Bool.or_eq_true, beq_iff_eq]
+      exact ⟨hs, endsWith_append _ _⟩
+    rw [if_pos hc]
+    simp
+  · intro h hs
+    unfold getHost
+    have hn : ¬ (((scheme == "http".toList || scheme == "ws".toList) && endsWith (h ++ ":443".toList) ":80".toList) = true) := by
+      simp only [Bool.and_eq_true, Bool.or_eq_true, beq_iff_eq, not_and]
+      intro h1
+      rcases hs with rfl | rfl <;> rcases h1 with h1 | h1 <;> exact absurd h1 (by decide)
+    have hc : ((scheme == "https".toList || scheme == "wss".toList) && endsWith (h ++ ":443".toList) ":443".toList) = true := by
+      simp only [Bool.and_eq_true, Bool.or_eq_true, beq_iff_eq]
+      exact ⟨hs, endsWith_append _ _⟩
+    rw [if_neg hn, if_pos hc]
+    simp
+
 /-! ### get_current_url -/
 
 structure CurInput (o : UrlOpaque) (scheme ha : Str) (port : Option Nat) (root : Str) (q : Bytes) : Prop where
